@@ -33,19 +33,21 @@ RULE = ('(a) isolated pipeline: the real LuaFormatterWriter._get_code_for_spaces
         'comment + distinct (program, layout pair) observations inside the domain of holds_C10')
 PARTIAL = ('whole-writer theorems (C10_indent, C10_reindent_invariant, C10_idempotent at program level) need the '
            'LuaASTEchoWriter walk (Model/AstWriter.v, worker parser): until then they are observed by the monitor on real '
-           'luafmt output, not proved; proved and unbounded: every run-level statement about the white-space pipeline')
+           'luafmt output, not proved; proved and unbounded: every run-level statement about the white-space pipeline, and the '
+           'whole-output clauses relative to an abstract chunk list (C10_*_partial)')
 ASSUMPTIONS = ['indentwidth is an integer (0-8 in the monitor domain); programs are those on which luafmt succeeds (C09 covers success)',
                'interior lines of multi-line block comments and long strings are token content, not layout: re-indentations leave them alone',
                'blank lines before the first line of the file are not "separating lines" (the output may start with up to two)']
 CLAIM = dict(
-    text=("Eight theorems in Properties/C10.v (Coq, closed under the global context) about fmt_run, the model of the 14-step re.sub "
+    text=("Twelve theorems in Properties/C10.v (Coq, closed under the global context) about fmt_run, the model of the 14-step re.sub "
           "pipeline of LuaFormatterWriter._get_code_for_spaces, for white-space/comment runs of EVERY length, every indent width and "
           "depth, at the start / middle / end of the file: C10_run_canonical_form (exact line-by-line form of the output), "
           "C10_run_depends_on_norm (runs equal modulo blanks at line edges are formatted identically: re-indentation invariance "
           "of a run), C10_run_indent (the token after the run sits at exactly indentwidth x depth spaces), "
           "C10_run_no_trailing_blank, C10_run_blank_lines (never three line feeds in a row), C10_run_end_of_file, "
-          "C10_run_keeps_comment_text (only white space moves), C10_run_idempotent_partial (formatting a formatted run changes "
-          "nothing, for runs followed by a token). Regex sources, guards, replacement expressions, order, and the whole function text "
+          "C10_run_keeps_comment_text (only white space moves), C10_run_idempotent (formatting a formatted run changes "
+          "nothing); and four theorems about the whole output as a list of writer chunks (C10_indent_partial, C10_first_line_partial, "
+          "C10_shape_partial, C10_reindent_partial) that reduce the whole-program clauses to facts about the writer walk. Regex sources, guards, replacement expressions, order, and the whole function text "
           "are regenerated from lua.py on every run and pinned. Tie: the extracted model equals the real method on ALL runs of length "
           "<= 5 (thorough 6) over {space,tab,\\n,\\r,-,/,a} x 4 positions x 3 (width,depth), on random long runs, and on every "
           "_get_code_for_spaces call made inside real luafmt runs on generated programs; the extracted holds_C10 (reference reader "
@@ -54,7 +56,8 @@ CLAIM = dict(
           "double blank line, no blank line at the end."),
     note=("PARTIAL: the whole-program clauses (indentation = width x syntactic depth, re-indentation invariance and idempotence "
           "of whole programs) are OBSERVED by the extracted monitor on real output, not proved: they need the model of the "
-          "LuaASTEchoWriter walk (worker parser); run-level idempotence is proved except for the run that ends the file. Two genuine "
+          "LuaASTEchoWriter walk (worker parser): that luafmt's output is a separated chunk list whose indents equal the syntactic "
+          "depth; given that, C10_indent_partial / C10_shape_partial / C10_reindent_partial give the clauses. Two genuine "
           "defects found by this check were fixed in picotool (fix: commits, findings/known_C10.json): white-space-only line / "
           "non-idempotence after an empty line inside a block; `//` comment lines kept their input indentation. Trusted: Coq "
           "kernel+VM, the hand-written regex scanners (pinned to the regenerated sources; compared exhaustively with Python re on "
